@@ -152,6 +152,28 @@ func parkedInRWMutexLock(gid int64) bool {
 	return false
 }
 
+// parkedInFrame reports whether goroutine gid is not running and has a frame whose function name contains frame
+// (a stack snapshot of all goroutines).
+func parkedInFrame(gid int64, frame string) bool {
+	buf := make([]byte, 1<<20)
+	buf = buf[:runtime.Stack(buf, true)]
+	for _, blk := range strings.Split(string(buf), "\n\n") {
+		m := goroutineHeader.FindStringSubmatch(blk)
+		if m == nil {
+			continue
+		}
+		if id, _ := strconv.ParseInt(m[1], 10, 64); id != gid {
+			continue
+		}
+		state := m[2]
+		if strings.HasPrefix(state, "running") || strings.HasPrefix(state, "runnable") {
+			return false
+		}
+		return strings.Contains(blk, frame)
+	}
+	return false
+}
+
 // ---------------------------------------------------------------- G
 
 type c12gCall struct {
